@@ -7,17 +7,18 @@ CONSTANTS
   Consumers = {"c1", "c2", "c3"}
   MaxEpoch = 2
   MaxSubs = 4
-  MaxOps = 6
+  MaxOps = 5
   UsePlain = FALSE
   UseBurst = TRUE
   UseFollower = TRUE
   UseBounded = TRUE
   C0 = "c1"
+  UseGrpc = FALSE
   UseRace = TRUE
   MaxElect = 2
   StrandedKnown = TRUE
   UseBad = TRUE
-INVARIANTS TypeOK MC_OneActive ActiveRegistered RegOK
+INVARIANTS TypeOK MC_OneActive C13_StreamEnded ActiveRegistered RegOK
 PROPERTIES StepsOK
 VIEW MCView
 CHECK_DEADLOCK FALSE
